@@ -163,6 +163,50 @@ def apply_inplace(t, op, other):
     return t
 
 
+def run_copy_noncontiguous(ctx, count):
+    # copy_ into destinations whose physical storage is NOT contiguous (expanded scalars of eye/full, slices yielded by
+    # iteration, transposed storage): afterwards destination and source must not share storage either way
+    sr_real = fggs.RealSemiring(dtype=torch.float64)
+    for k in range(count):
+        n = ctx.rng.choice([2, 3])
+        kind = ctx.rng.choice(['eye', 'full', 'iter-slice', 'transposed'])
+        if kind == 'eye':
+            x = PatternedTensor.eye(n, sr_real)
+            d = PatternedTensor(torch.arange(1., n + 1, dtype=torch.float64), x.paxes, x.vaxes, 0.) if False else None
+            from fggs.indices import PhysicalAxis
+            kk = PhysicalAxis(n)
+            d = PatternedTensor(torch.arange(1., n + 1, dtype=torch.float64), (kk,), (kk, kk), 0.)
+        elif kind == 'full':
+            x = PatternedTensor.full((n, n), 2.0, dtype=torch.float64)
+            d = PatternedTensor(torch.arange(1., n * n + 1, dtype=torch.float64).reshape(n, n))
+        elif kind == 'iter-slice':
+            base = PatternedTensor(torch.arange(1., n * n * 2 + 1, dtype=torch.float64).reshape(n, 2, n)).permute((1, 0, 2)) if False else \
+                PatternedTensor(torch.arange(1., n * n + 1, dtype=torch.float64).reshape(n, n)).t()
+            x = list(base)[0]
+            d = PatternedTensor(torch.arange(10., 10. + n, dtype=torch.float64))
+        else:
+            x = PatternedTensor(torch.arange(1., n * n + 1, dtype=torch.float64).reshape(n, n).t())
+            d = PatternedTensor(torch.arange(20., 20. + n * n, dtype=torch.float64).reshape(n, n))
+        op = ctx.rng.choice(['neg_', 'imul2', 'log_', 'abs_'])
+        side = ctx.rng.choice(['dest', 'src'])
+        case = dict(copy_into=kind, then=op, on=side)
+        ctx.case(case, ('copy_-noncontiguous', kind, op, side), sample_every=20)
+        ctx.count('copy_-into.' + kind)
+        try:
+            x.copy_(d)
+            after_copy = x.to_dense().clone()
+            d_dense = d.to_dense().clone()
+            if not ptgen.same_dense(after_copy, d_dense):
+                ctx.fail(f'copy_ into a {kind} destination does not make it equal to the source', case, after_copy.tolist(), d_dense.tolist(), tags=['copy_', kind])
+            target, other_side, other_before = (x, d, d_dense) if side == 'dest' else (d, x, after_copy)
+            apply_inplace(target, op, d)
+            if not ptgen.same_dense(other_side.to_dense(), other_before):
+                ctx.fail(f'after x.copy_(d) with a {kind} destination, an in-place {op} on the {side} changed the other tensor (shared storage)',
+                         case, other_side.to_dense().tolist(), other_before.tolist(), tags=['copy_', 'shares-storage', kind])
+        except Exception as e:  # noqa
+            ctx.fail(f'copy_ into a {kind} destination / {op} raised {type(e).__name__}: {str(e)[:80]}', case, repr(e), None, tags=['copy_', 'raises', kind])
+
+
 def run_clones(ctx):
     n = 200 if ctx.quick else 1500
     reqs, meta = [], []
@@ -210,6 +254,7 @@ def run_clones(ctx):
             ok = (isinstance(m, float) and (a == m or (a != a and m != m))) or (not isinstance(m, float) and abs(a - float(m)) <= 1e-12 * max(1.0, abs(float(m))))
             if not ok:
                 ctx.disagree('Hp.run vs in-place operations on a clone', case, impl, rep[:300]); break
+    run_copy_noncontiguous(ctx, 40 if ctx.quick else 400)
     # MultiTensor clone isolation
     sr = fggs.RealSemiring(dtype=torch.float64)
     shapes = {'x': torch.Size([2]), 'y': torch.Size([])}
